@@ -1,6 +1,6 @@
 for _p in ("C02", "C03"):
     H("reader_" + _p.lower(), _p, "sched", ["harness/reader_harness.cc"], sdk=["common"],
       repo_src=["sdk/src/metrics/export/periodic_exporting_metric_reader.cc", "sdk/src/metrics/metric_reader.cc"],
-      args={"quick": ["--oracle=" + _p], "thorough": ["--oracle=" + _p]},
+      args={"quick": ["--oracle=" + _p], "thorough": ["--oracle=" + _p, "--budget=400"]},
       what="real PeriodicExportingMetricReader/MetricReader fed by a harness MetricProducer: concurrent ForceFlush callers (timeouts zero/short/long/max), Shutdown racing them, slow/failing exporter, slow collection; oracle " + _p,
       design_ref="5/" + _p)
